@@ -239,6 +239,7 @@ Fault(kind, i) ==
 \* a Write somewhere else in the process, between two calls of this direction
 Other(who, k) ==
   /\ who \in Others
+  /\ under = 0          \* (the short-read regime is irrelevant to it: one regime keeps the graph small)
   /\ op' = [name |-> "other", who |-> who, k |-> k]
   /\ UNCHANGED View
 
